@@ -340,47 +340,79 @@ def reindex(prog, run):
     run.ob("R-reindex", fi2.qual, "constraint columns re-ordered to the sensor names", ok, f"`{why}`", witness=why[:80], file=f2)
 
 
+def _first_sheet(e, dname):
+    """the sheet name of the first (outermost) `d['<sheet>']` read in expression e"""
+    for n in ast.walk(e):
+        if isinstance(n, ast.Subscript) and isinstance(n.value, ast.Name) and n.value.id == dname and isinstance(n.slice, ast.Constant) and isinstance(n.slice.value, str):
+            return n.slice.value
+    return None
+
+
 def validated(prog, run):
     """R-validated: the geometry object is built from the tables RETURNED by the validation function (normalised, re-indexed,
-    zero-based), each under the keyword of the same name - not from the caller's raw arguments"""
-    norm = lambda x: x.lower().replace("_", "")
+    zero-based) - and keyword K receives the validated version of the table the user passed as argument K.  The link is made through
+    the sheet names, which both sides spell out: argument K -> file_dict['<sheet>'] in def_geoN, file_dict['<sheet>'] -> return
+    element k in check_on_geoN, return element k -> keyword in the constructor call."""
+    sheet_of_elem = {}
+    for q in GEO:
+        cf = prog.func(q)
+        d = dict_param(cf)
+        rets = [n for n in ast.walk(cf.node) if isinstance(n, ast.Return) and isinstance(n.value, ast.Tuple)]
+        if rets:
+            sheet_of_elem[cf.node.name] = [_first_sheet(astq.expr_at(cf, rets[-1], e), d) for e in rets[-1].value.elts]
+    by_keyword = {}      # (geometry class, keyword) -> sheet, learnt from the def_geoN route and required of the by-file route
     for cq in [q for q in prog.classes if q.endswith("geometry.mixin.GeometryMixin")]:
         ci = prog.classes[cq]
-        for m in ci.methods.values():
+        methods = sorted(ci.methods.values(), key=lambda m: (m.node.name.startswith("_"), m.node.name))
+        for m in methods:
             f = rel(prog.mods[m.mod].path)
+            params = set(astq.params_of(m.node)[0])
+            # sheet -> argument of this method (from the dict literal handed to the validation)
+            arg_of_sheet = {}
+            for dn in ast.walk(m.node):
+                if isinstance(dn, ast.Dict) and dn.keys and all(isinstance(k, ast.Constant) and isinstance(k.value, str) for k in dn.keys):
+                    for k, v in zip(dn.keys, dn.values):
+                        names = [z.id for z in ast.walk(v) if isinstance(z, ast.Name) and z.id in params]
+                        if names:
+                            arg_of_sheet[k.value] = names[0]
             for c, r in prog.calls_in(m):
-                cname = astq.src(c.func)
-                if not (cname.split(".")[-1] in ("Geometry1", "Geometry2") and c.keywords):
+                cname = astq.src(c.func).split(".")[-1]
+                if not (cname in ("Geometry1", "Geometry2") and c.keywords):
                     continue
                 for k in c.keywords:
                     if k.arg is None:
                         continue
                     x = astq.expr_at(m, c, k.value)
-                    # strip order-preserving conversions
                     while isinstance(x, ast.Call) and isinstance(x.func, ast.Attribute) and x.func.attr in ("astype", "copy", "to_numpy"):
                         x = x.func.value
                     src_fn, pos = None, None
                     if isinstance(x, ast.Subscript) and isinstance(x.value, ast.Call) and isinstance(x.slice, ast.Constant) and isinstance(x.slice.value, int):
                         rr = prog.resolve_call(m, x.value)
-                        if isinstance(rr, FuncInfo) and rr.node.name.startswith("check_on_geo"):
+                        if isinstance(rr, FuncInfo) and rr.node.name in sheet_of_elem:
                             src_fn, pos = rr, x.slice.value
+                    role = f"{cname}.{k.arg} is the validated table of the argument / sheet of that name"
                     if src_fn is None:
-                        raw = isinstance(x, ast.Name) and x.id in astq.params_of(m.node)[0]
-                        run.ob("R-validated", m.qual, f"{cname.split('.')[-1]}.{k.arg} is a table returned by the validation", False if raw else None,
+                        raw = isinstance(x, ast.Name) and x.id in params
+                        run.ob("R-validated", m.qual, role, False if raw else None,
                                f"`{k.arg}={astq.src(x, 50)}`" + (" is the caller's raw argument: NaN cells, one-based indices and the caller's row order are kept" if raw else " not traced to the validation result"),
                                witness=f"{k.arg}<-{astq.src(x, 40)}", file=f, node=c, config=k.arg)
                         continue
-                    rets = [n for n in ast.walk(src_fn.node) if isinstance(n, ast.Return) and isinstance(n.value, ast.Tuple)]
-                    names = [e.id if isinstance(e, ast.Name) else None for e in rets[-1].value.elts] if rets else []
-                    got = names[pos] if 0 <= pos < len(names) else None
-                    ok = None
-                    if got is not None:
-                        a_, b_ = norm(k.arg), norm(got)
-                        ok = a_ == b_ or a_.startswith(b_) or b_.startswith(a_) or {a_, b_} in ({"senscoord", "ptscoord"},)
-                        if not ok and not any(norm(k2.arg or "") in (b_,) or b_.startswith(norm(k2.arg or "~")) for k2 in c.keywords):
-                            ok = None      # no keyword of that name at all: naming scheme not recognised
-                    run.ob("R-validated", m.qual, f"{cname.split('.')[-1]}.{k.arg} is a table returned by the validation", ok,
-                           f"`{k.arg}` <- element {pos} (`{got}`) of {src_fn.node.name}(...)", witness=f"{k.arg}<-{got}", file=f, node=c, config=k.arg)
+                    sheets = sheet_of_elem[src_fn.node.name]
+                    sheet = sheets[pos] if 0 <= pos < len(sheets) else None
+                    if sheet is None:
+                        run.ob("R-validated", m.qual, role, None, f"`{k.arg}` <- element {pos} of {src_fn.node.name}(...): the sheet it is read from was not recognised", file=f, node=c, config=k.arg)
+                        continue
+                    if arg_of_sheet:
+                        arg = arg_of_sheet.get(sheet)
+                        # public names on both sides (def_geoN parameter / GeometryN field); one may abbreviate the other (cstr / cstrn)
+                        ok = (arg == k.arg or arg.startswith(k.arg) or k.arg.startswith(arg)) if arg is not None else None
+                        by_keyword.setdefault((cname, k.arg), sheet)
+                        detail = f"`{k.arg}` <- element {pos} of {src_fn.node.name}(...) = validated sheet '{sheet}', which holds the argument `{arg}`"
+                    else:
+                        want = by_keyword.get((cname, k.arg))
+                        ok = (want == sheet) if want is not None else None
+                        detail = f"`{k.arg}` <- element {pos} of {src_fn.node.name}(...) = validated sheet '{sheet}'" + (f" (the argument route uses sheet '{want}')" if want is not None else "")
+                    run.ob("R-validated", m.qual, role, ok, detail, witness=f"{k.arg}<-{sheet}", file=f, node=c, config=k.arg)
 
 
 DF_ATTRS = {"empty", "values", "index", "sub", "to_numpy", "reindex", "fillna", "columns", "astype", "replace", "shape", "loc", "iloc"}
